@@ -1600,3 +1600,6 @@ for _i in (1, 2, 3, 4, 5, 6, 7, 8, 10, 11, 12, 13, 14, 15, 16, 17, 18, 19, 20):
 for _i in (1, 2, 3, 4, 5, 6, 7, 8, 10, 11, 12, 13, 14, 15, 16, 17, 18, 19, 20):
     VARIANTS.append(dict(id="comp-to-loop-c%02d" % _i, prop="C%02d" % _i, expect="undecided", rule=None, edits=[("@comp_to_loop",)],
                          what="every `name = [elt for t in it if c]` statement written as a loop with append, dict(generator) as a dict comprehension: accepted or undecided, never an alarm"))
+for _i in (1, 2, 3, 4, 5, 6, 7, 8, 10, 11, 12, 13, 14, 15, 16, 17, 18, 19, 20):
+    VARIANTS.append(dict(id="logic-spellings-c%02d" % _i, prop="C%02d" % _i, expect="silent", rule=None, edits=[("@logic_spellings",)],
+                         what="De Morgan on every two-way and / or test, `is not` / `not in` / `!=` as `not ... is / in / ==`, everywhere"))
